@@ -68,7 +68,7 @@ def plan(tier: str, seed: int) -> list[dict]:
         cases.append({"k": "qcow2-snapshots", "i": (i := i + 1), "n": rng.choice([1, 2, 3, 5]), "ext": rng.random() < 0.3})
     for _ in range(30 * mult):
         cases.append({"k": "vdi-parent", "i": (i := i + 1), "depth": rng.choice([2, 2, 3, 4])})
-    fmts = ["vhdx", "vmdk", "vmdk-embedded", "hdd-image", "hdd-shot", "qcow2", "vmdk-embedded-unnamed", "vhdx-unnamed", "hdd-image-entry", "vmdk-no-hint"]
+    fmts = ["vhdx", "vmdk", "vmdk-embedded", "hdd-image", "hdd-shot", "qcow2", "vmdk-embedded-unnamed", "vhdx-unnamed", "hdd-image-entry", "vmdk-no-hint", "vhdx-foreign-locator"]
     for j in range(18 * mult):
         cases.append({"k": "missing", "i": (i := i + 1), "fmt": fmts[j % len(fmts)]})
     cases.append({"k": "fixture-avhdx", "i": 0, "weight": 10})
@@ -306,6 +306,20 @@ def _missing(case, rng, ctx, res):
         # a plausible parent lies next to it: it must not be guessed, and the child must not be shown alone
         (d / "base.vmdk").write_bytes((d / ("child.vmdk" if embedded else "child-s001.vmdk")).read_bytes())
         o = call(lambda: VMDK(d / "child.vmdk").read(512))
+    elif fmt == "vhdx-foreign-locator":
+        # a differencing VHDX whose parent locator is of a type the reader does not know (not the VHDX locator): its entries
+        # cannot be interpreted, so the parent cannot be found - although a plausible base.vhdx lies next to the child
+        from dissect.hypervisor.disk.vhdx import VHDX
+        from vf.writers import vhdx as wvx
+
+        d = Path(ctx.tmpdir())
+        base, _, _ = wvx.build(rng, block_size=1 << 20, sector_size=512, nblocks=3, states=[6, 6, 6], tag=rng.getrandbits(32), checksums=False)
+        base.write_to(d / "base.vhdx")
+        ltype = bytes(rng.randrange(256) for _ in range(16))
+        loc = wvx.parent_locator([("parent_linkage", "{83ed0ec1-24c8-49a6-a959-5e4bd1288015}"), ("relative_path", ".\\base.vhdx")], locator_type=ltype, rng=rng)
+        sf, _, _ = wvx.build(rng, block_size=1 << 20, sector_size=512, nblocks=3, states=[6, 0, 0], tag=rng.getrandbits(32), has_parent=True, locator=loc, checksums=False)
+        sf.write_to(d / "child.avhdx")
+        o = call(lambda: VHDX(d / "child.avhdx").read(4096))
     elif fmt == "vhdx-unnamed":
         # a differencing VHDX handed over as a nameless stream: there is no directory to look for the parent in
         from dissect.hypervisor.disk.vhdx import VHDX
